@@ -504,7 +504,7 @@ func (g *sgen) mutate(v any, schema any, isInput, allowRootNull bool) (any, stri
 	case "null":
 		return setAt(v, n.path, nil), label
 	case "nonobject":
-		alts := []any{5.0, "str", []any{1.0}, true}
+		alts := []any{5.0, "str", []any{1.0}, true, 0.0, "", false, []any{}}
 		if allowRootNull {
 			alts = append(alts, nil, nil)
 		}
